@@ -161,6 +161,9 @@ fn build(s: &Spec, idx: u64) -> Result<Built, String> {
     }
     let mut ext_bytes = None;
     let text = |s: &str| Cbor::Text(s.to_string());
+    // byte-string members of the extension outputs: CBOR byte strings, or - in the build with the library's
+    // feature serialize_bytes_as_base64_string, whose documented meaning is exactly that - base64url text
+    let bytes_member = |v: &Vec<u8>| if B64_BUILD.load(std::sync::atomic::Ordering::Relaxed) { Cbor::Text(oracle::b64url(v)) } else { Cbor::Bytes(v.clone()) };
     match &s.ext {
         Ext::None => {}
         Ext::MakeBool(b) => {
@@ -169,15 +172,15 @@ fn build(s: &Spec, idx: u64) -> Result<Built, String> {
         }
         Ext::MakeMc(v) => {
             ad = ad.set_make_credential_extensions(Some(make_credential::SignedExtensionOutputs { hmac_secret: None, hmac_secret_mc: Some(Bytes::from(v.clone())) })).map_err(|e| format!("{e:?}"))?;
-            ext_bytes = Some(oracle::cbor_ser(&Cbor::Map(vec![(text("hmac-secret-mc"), Cbor::Bytes(v.clone()))])));
+            ext_bytes = Some(oracle::cbor_ser(&Cbor::Map(vec![(text("hmac-secret-mc"), bytes_member(v))])));
         }
         Ext::MakeBoth(b, v) => {
             ad = ad.set_make_credential_extensions(Some(make_credential::SignedExtensionOutputs { hmac_secret: Some(*b), hmac_secret_mc: Some(Bytes::from(v.clone())) })).map_err(|e| format!("{e:?}"))?;
-            ext_bytes = Some(oracle::cbor_ser(&Cbor::Map(vec![(text("hmac-secret"), Cbor::Bool(*b)), (text("hmac-secret-mc"), Cbor::Bytes(v.clone()))])));
+            ext_bytes = Some(oracle::cbor_ser(&Cbor::Map(vec![(text("hmac-secret"), Cbor::Bool(*b)), (text("hmac-secret-mc"), bytes_member(v))])));
         }
         Ext::Get(v) => {
             ad = ad.set_assertion_extensions(Some(get_assertion::SignedExtensionOutputs { hmac_secret: Some(Bytes::from(v.clone())) })).map_err(|e| format!("{e:?}"))?;
-            ext_bytes = Some(oracle::cbor_ser(&Cbor::Map(vec![(text("hmac-secret"), Cbor::Bytes(v.clone()))])));
+            ext_bytes = Some(oracle::cbor_ser(&Cbor::Map(vec![(text("hmac-secret"), bytes_member(v))])));
         }
     }
     if s.followup == 4 {
@@ -265,6 +268,32 @@ fn check_value(rep: &mut Report, s: &Spec, idx: u64, sweeps: bool, corrupt_all: 
             }
             if back.to_vec() != bytes {
                 rep.violate("re-encoding the decoded value gives different bytes", String::new(), case.clone());
+            }
+        }
+    }
+    // ---- the serde route (what a CTAP2 response carries as authData): a CBOR byte string holding exactly those
+    // bytes, in every build configuration, and reading it back gives the value again
+    match catch(|| {
+        let mut w = Vec::new();
+        ciborium::ser::into_writer(&built.value, &mut w).map_err(|e| format!("{e:?}"))?;
+        let v: Cbor = ciborium::de::from_reader(w.as_slice()).map_err(|e| format!("{e:?}"))?;
+        let back = if bytes.len() <= 4000 { Some(ciborium::de::from_reader::<AuthenticatorData, _>(w.as_slice()).map(|b| b.to_vec()).map_err(|e| format!("{e:?}"))) } else { None };
+        Ok::<_, String>((v, back))
+    }) {
+        Err((sig, d)) => rep.violate(&format!("serde encoding of authenticator data {sig}"), d, case.clone()),
+        Ok(Err(e)) => rep.violate("authenticator data does not serialise through serde", e, case.clone()),
+        Ok(Ok((v, back))) => {
+            rep.count("serde_encodings_checked");
+            match &v {
+                Cbor::Bytes(b) if *b == bytes => {}
+                Cbor::Bytes(b) => rep.violate("serde encoding of authenticator data holds other bytes than to_vec()", format!("{} bytes against {}", b.len(), bytes.len()), case.clone()),
+                other => rep.violate("serde encoding of authenticator data is not a CBOR byte string of the specified layout", format!("major type of {}", match other { Cbor::Text(_) => "text", Cbor::Array(_) => "array", Cbor::Map(_) => "map", _ => "other" }), case.clone()),
+            }
+            match back {
+                Some(Ok(b)) if b == bytes => rep.count("serde_round_trips_checked"),
+                Some(Ok(_)) => rep.violate("decoding the serde encoding does not return an equal value", String::new(), case.clone()),
+                Some(Err(e)) => rep.violate("decoding the serde encoding of the encoder's own output fails", e, case.clone()),
+                None => rep.count("serde_round_trip_skipped_above_4000_bytes"),
             }
         }
     }
@@ -357,12 +386,15 @@ fn judge_decode(rep: &mut Report, input: &[u8], case: &Value, mutation: &str, id
     }
 }
 
+static B64_BUILD: std::sync::atomic::AtomicBool = std::sync::atomic::AtomicBool::new(false);
+
 pub fn run(args: &Args) -> Report {
+    B64_BUILD.store(args.engine.as_deref() == Some("b64feat"), std::sync::atomic::Ordering::Relaxed);
     let mut rep = Report::new(
         "C12",
         &args.tier,
         args.seed,
-        "generated authenticator data (RP ids, counters None/0/1/2^32-1/random, UP/UV/BE/BS through set_flags, AAGUIDs, credential ids of 0..65535 bytes, real EC2 keys, make/get extension outputs) checked against an own encoder and decoder; every truncation and seeded (thorough: every) single-byte corruption of encodings up to 600 bytes; distinct by value shape resp. (value, mutation); non-trivial when an optional section is present or the own decoder classifies the mutated input as one the statement says must be rejected",
+        "generated authenticator data (RP ids, counters None/0/1/2^32-1/random, UP/UV/BE/BS through set_flags, AAGUIDs, credential ids of 0..65535 bytes, real EC2 keys, make/get extension outputs) checked against an own encoder and decoder, the serde (CBOR) encoding of every value being a byte string of exactly those bytes that reads back equal; every truncation and seeded (thorough: every) single-byte corruption of encodings up to 600 bytes; distinct by value shape resp. (value, mutation); non-trivial when an optional section is present or the own decoder classifies the mutated input as one the statement says must be rejected",
     );
     rep.assumptions.push("coset serialises the COSE key (trusted base); a corruption that yields another structurally valid encoding may be accepted or rejected; trailing bytes are not judged".into());
     let miri = args.engine.as_deref() == Some("miri");
